@@ -127,10 +127,13 @@ func (n *Nat) EuclideanDivVarTime(remainder, numerator, denominator *Nat) ct.Boo
 	nn := (*saferith.Nat)(numerator)
 	dd := saferith.ModulusFromNat((*saferith.Nat)(denominator))
 
+	// The quotient needs at most AnnouncedLen(numerator) - BitLen(denominator) + 2 bits, and none when the
+	// numerator is shorter than the denominator: saferith's default (cap = -1) goes negative there.
+	qCap := max(numerator.AnnouncedLen()-dd.BitLen()+2, 0)
 	var qq saferith.Nat
-	qq.Div(nn, dd, -1)
+	qq.Div(nn, dd, qCap)
 	// n may alias numerator: read everything that depends on the numerator before n is written.
-	qLen := min(numerator.AnnouncedLen(), numerator.AnnouncedLen()-dd.BitLen()+2)
+	qLen := min(numerator.AnnouncedLen(), qCap)
 	var rr saferith.Nat
 	if remainder != nil {
 		rr.Mul((*saferith.Nat)(denominator), &qq, -1)
